@@ -36,13 +36,13 @@ MASKS = {'low': (0, 1), 'mil': (0, 2), 'high': (2, 3)}
 
 
 def worker(ck: Check, job):
-    code, mask = job
+    code, dom = job
+    mask = dom
     L = LANGS[code]
     quick = ck.tier == 'quick'
     zmax = 3 if quick else 6
     digs = Digits(12)
     f = L.flags()
-    dom = 'sparse' if quick else 'full9'
     assm = digs.domain(dom) + list(L.side_constraints(digs, f))
     assm.append(z3.Not(digs.is_zero()))
     z = z3.BitVec('nzeros', 8)
@@ -53,7 +53,7 @@ def worker(ck: Check, job):
     words_of = lambda m: concrete_phrase(slots, m)
     name = '%s:%s' % (code, mask)
     ck.bounds['leading_zero_words_max'] = zmax
-    ck.bounds['domain'] = dom + ': ' + ('units group free, one digit in each of the thousands/millions/billions groups' if quick else 'n < 10^9')
+    ck.bounds['domain'] = 'quick: n < 10^4, and n with one free digit in each group of three (d*10^9 + c*10^6 + b*10^3 + a); thorough: n < 10^9'
 
     # ---------------------------------------------------------------- validator
     ex = make_executor(ck, assm)
@@ -208,9 +208,12 @@ def run(ck: Check):
     only = os.environ.get('VERIF_LANGS')
     if only:
         langs = [c for c in langs if c in only.split(',')]
-    jobs = [(c, 'n') for c in langs]
+    if ck.tier == 'quick':
+        jobs = [(c, d) for d in ('scales', 'low4') for c in langs]
+    else:
+        jobs = [(c, 'full9') for c in langs]
     run_parallel(ck, worker, jobs)
-    ck.outside.append('more than %d leading zero words; quick: n outside the sparse domain (units group free, one digit in each higher group); thorough: n >= 10^9'
+    ck.outside.append('more than %d leading zero words; quick: n outside the two domains (n < 10^4; one free digit per group of three); thorough: n >= 10^9'
                       % (3 if ck.tier == 'quick' else 6))
     return ('k spoken zeros (k symbolic) followed by the spelling of n (digits symbolic, via the reference speller): '
             'text2digits and find_numbers executed from MIR, z3 decides that the result is the single numeral 0^k n; '
